@@ -6,15 +6,16 @@
 # then stores patch.diff, demo.cpp, meta.json (+ our verdict) under /verif/seeded/<Cxx>_<N>/.
 set -u
 ID=$1; N=$2; TIER=${3:-quick}
-SRC=/tmp/seed_$ID/out/$N
+SEEDBASE=${SEEDBASE:-/tmp/seed_$ID}; DSTN=${DSTN:-$N}
+SRC=$SEEDBASE/out/$N
 ROOT=$(cd "$(dirname "$0")/.." && pwd)
 [ -f $SRC/patch.diff ] && [ -f $SRC/demo.cpp ] || { echo "missing files in $SRC"; exit 2; }
 WT=$(mktemp -d /tmp/intake.XXXXXX); rmdir $WT
 git -C /repo worktree add --detach $WT HEAD -q || exit 2
 INC=""; for f in common hll cpc kll fi theta sampling tuple req quantiles count density tdigest filters; do INC="$INC -I$WT/$f/include"; done
 # rewrite include paths of the agent's worktree, if hard-coded in the demo
-sed "s|/tmp/seed_$ID|$WT|g" $SRC/demo.cpp > $WT/demo.cpp
-XFLAGS=$(python3 -c "import json,sys; m=json.load(open('$SRC/meta.json')); f=m.get('demo_compile_flags',''); print(' '.join(f) if isinstance(f,list) else f)" 2>/dev/null)
+sed "s|$SEEDBASE|$WT|g" $SRC/demo.cpp > $WT/demo.cpp
+XFLAGS=$(python3 -c "import json,sys; m=json.load(open('$SRC/meta.json')); f=m.get('demo_compile_flags',''); f=' '.join(f) if isinstance(f,list) else f; print(' '.join(t for t in f.split() if t.startswith(('-f','-D','-g','-pthread','-rdynamic','-l')) and not t.startswith('-fuse')))" 2>/dev/null)
 g++ -std=gnu++17 -O1 $XFLAGS $INC $WT/demo.cpp -o $WT/demo_clean 2> $WT/c1.log || { echo "demo does not compile on clean tree"; tail -5 $WT/c1.log; git -C /repo worktree remove --force $WT; exit 2; }
 ( cd $WT && timeout 600 ./demo_clean > out_clean.txt 2>&1 ); RC_CLEAN=$?
 git -C $WT apply $SRC/patch.diff || { echo "patch does not apply to /repo HEAD"; git -C /repo worktree remove --force $WT; exit 2; }
@@ -44,7 +45,7 @@ cd $ROOT
 OUT=$(VERIF_REPO=$WT ./check $ID --tier $TIER 2>&1); RC=$?
 echo "$OUT" | grep -E "^VIOLATION|^INCONCLUSIVE|^\[" | cut -c1-200 | head -5
 KEYS=$(echo "$OUT" | grep "^VIOLATION" | grep -oE "key=\S+" | sort -u | head -8 | tr '\n' ' ')
-DST=$ROOT/seeded/${ID}_$N; mkdir -p $DST
+DST=$ROOT/seeded/${ID}_$DSTN; mkdir -p $DST
 cp $SRC/patch.diff $DST/; cp $SRC/demo.cpp $DST/
 python3 - "$SRC/meta.json" "$DST/meta.json" "$ID" "$RC_CLEAN" "$RC_MUT" "$RC" "$TIER" "$KEYS" "$TESTS_RUN" <<'PY'
 import json,sys
@@ -57,5 +58,5 @@ m["verified_by_us"]={"demo_rc_without_change":int(rcc),"demo_rc_with_change":int
   "detected":int(rc)==1,"violation_keys":keys.split(),"unit_tests_with_change":tests.split()}
 json.dump(m,open(dst,"w"),indent=1)
 PY
-echo "INTAKE $ID/$N: tests_ok=$TESTS_OK demo_ok=$([ $RC_CLEAN -eq 0 ] && [ $RC_MUT -ne 0 ] && echo yes || echo NO) check_rc=$RC"
+echo "INTAKE $ID/$DSTN: tests_ok=$TESTS_OK demo_ok=$([ $RC_CLEAN -eq 0 ] && [ $RC_MUT -ne 0 ] && echo yes || echo NO) check_rc=$RC"
 git -C /repo worktree remove --force $WT
